@@ -120,7 +120,8 @@ def gen_map(lines):
         d = cfg_return(body, False)
         if d is None or not re.fullmatch(r"self\.(map|occupied)\.%s\((?:key)?\)" % fn, d):
             miss("map." + name + ".default", "default arm of %s does not forward to BTreeMap::%s: %r" % (fn, fn, d))
-        lines.append("/-- `%s` under preserve_order forwards to: 0 = `swap_%s`, 1 = `shift_%s` -/" % (fn, fn, fn))
+        owner = "Map" if text is mp else "OccupiedEntry"
+        lines.append("/-- `%s::%s` under preserve_order forwards to: 0 = `swap_%s`, 1 = `shift_%s` -/" % (owner, fn, fn, fn))
         lines.append("def %s : Nat := %d" % (name, code))
     body = fn_body(mp, r"pub fn append\b[^{]*\{")
     po, df = cfg_return(body, True), cfg_return(body, False)
